@@ -355,6 +355,122 @@ pub fn load_sql(a: &Value) -> Vec<String> {
     stmts
 }
 
+/// Deeply nested / very long inputs for the parser (C23): shape x depth.
+pub fn nest_sql(shape: &str, n: usize) -> String {
+    match shape {
+        "paren" => format!("SELECT {}1{}", "(".repeat(n), ")".repeat(n)),
+        "neg" => format!("SELECT {}1", "- ".repeat(n)),
+        "not" => format!("SELECT 1 WHERE {}TRUE", "NOT ".repeat(n)),
+        "case" => format!("SELECT {}1{}", "CASE WHEN TRUE THEN ".repeat(n), " END".repeat(n)),
+        "subq" => format!("SELECT * FROM {}T{}", "(SELECT * FROM ".repeat(n), ") AS X".repeat(n)),
+        "scalar" => format!("SELECT {}1{}", "(SELECT ".repeat(n), ")".repeat(n)),
+        "func" => format!("SELECT {}1{}", "ABS(".repeat(n), ")".repeat(n)),
+        "and" => format!("SELECT 1 WHERE {}TRUE", "TRUE AND ".repeat(n)),
+        "plus" => format!("SELECT {}1", "1 + ".repeat(n)),
+        "inlist" => format!("SELECT 1 WHERE 1 IN ({}1)", "1, ".repeat(n)),
+        "cols" => format!("SELECT {}1 FROM T", "A, ".repeat(n)),
+        "join" => format!("SELECT * FROM T{}", " JOIN T ON 1 = 1".repeat(n)),
+        "union" => format!("SELECT 1{}", " UNION SELECT 1".repeat(n)),
+        "open" => "(".repeat(n),
+        "quote" => format!("SELECT '{}", "x".repeat(n)),
+        "ident" => format!("SELECT {}", "a".repeat(n)),
+        "digits" => format!("SELECT {}", "9".repeat(n)),
+        _ => String::new(),
+    }
+}
+
+/// Decimal literal of the boundary value a * 2^63 + n.
+fn big_literal(v: &Value) -> String {
+    let a = v["a"].as_i64().unwrap_or(0) as i128;
+    let n = v["n"].as_i64().unwrap_or(0) as i128;
+    let x = a * (1i128 << 63) + n;
+    if x < 0 { format!("(-{})", -x) } else { x.to_string() }
+}
+
+/// SQL for an arithmetic probe (C24): preparatory statements and the query whose single value is the observation.
+pub fn arith_sql(a: &Value) -> (Vec<String>, String) {
+    let op = a["op"].as_str().unwrap_or("+");
+    let (x, y) = (big_literal(&a["x"]), big_literal(&a["y"]));
+    let ctx = a["ctx"].as_str().unwrap_or("select");
+    let e = |l: &str, r: &str| match op {
+        "neg" => format!("(- {})", l),
+        "/0" => format!("({} / 0)", l),
+        "%0" => format!("({} % 0)", l),
+        "sum2" => format!("({} + {})", l, r),
+        o => format!("({} {} {})", l, o, r),
+    };
+    match ctx {
+        "column" => {
+            let mut pre = vec!["CREATE TABLE NB (K INTEGER, X BIGINT, Y BIGINT)".to_string()];
+            if op == "sum2" {
+                pre.push(format!("INSERT INTO NB VALUES (1, {}, 0)", x));
+                pre.push(format!("INSERT INTO NB VALUES (2, {}, 0)", y));
+                (pre, "SELECT SUM(X) FROM NB".to_string())
+            } else {
+                pre.push(format!("INSERT INTO NB VALUES (1, {}, {})", x, y));
+                (pre, format!("SELECT {} FROM NB", e("X", "Y")))
+            }
+        }
+        "where" => (
+            vec!["CREATE TABLE NB (K INTEGER, X BIGINT, Y BIGINT)".to_string(), "INSERT INTO NB VALUES (1, 0, 0)".to_string()],
+            format!("SELECT {} FROM NB WHERE {} = {}", e(&x, &y), e(&x, &y), e(&x, &y)),
+        ),
+        _ => (vec![], format!("SELECT {}", e(&x, &y))),
+    }
+}
+
+/// Observation class of an arithmetic probe (see spec/Arith.tla).
+pub fn arith_observation(o: &Outcome) -> Value {
+    let cls = |k: &str, a: i64, n: i64| json!({"k": k, "a": a, "n": n});
+    match o.out {
+        "panic" => return cls("panic", 0, 0),
+        "ok" => {}
+        _ => return cls("err", 0, 0),
+    }
+    let rows = match &o.rows {
+        Some(r) => r,
+        None => return cls("other", 0, 0),
+    };
+    if rows.is_empty() {
+        // the WHERE context filters on the value itself: no row means the comparison was not true (NULL or an error value)
+        return cls("null", 0, 0);
+    }
+    if rows.len() != 1 || rows[0].values.len() != 1 {
+        return cls("other", 0, 0);
+    }
+    let two63 = 1i128 << 63;
+    let from_int = |v: i128| -> Value {
+        let a = if v >= 0 { (v + two63 / 2) / two63 } else { -((-v + two63 / 2) / two63) };
+        let n = v - a * two63;
+        if n.abs() <= 64 { cls("int", a as i64, n as i64) } else { cls("other", 0, 0) }
+    };
+    let from_float = |f: f64| -> Value {
+        if !f.is_finite() {
+            return cls("other", 0, 0);
+        }
+        let t = 9223372036854775808.0f64;
+        let a = (f / t).round();
+        let n = f - a * t;
+        if n.abs() <= 100000.0 && a.abs() <= 1000.0 {
+            cls("float", a as i64, n.round() as i64)
+        } else if a != 0.0 && a.abs() <= 1000.0 {
+            cls("approx", a as i64, 0)
+        } else {
+            cls("other", 0, 0)
+        }
+    };
+    use vibesql_types::SqlValue as V;
+    match &rows[0].values[0] {
+        V::Null => cls("null", 0, 0),
+        V::Integer(i) | V::Bigint(i) => from_int(*i as i128),
+        V::Smallint(i) => from_int(*i as i128),
+        V::Unsigned(u) => from_int(*u as i128),
+        V::Numeric(f) | V::Double(f) => from_float(*f),
+        V::Float(f) | V::Real(f) => from_float(*f as f64),
+        _ => cls("other", 0, 0),
+    }
+}
+
 /// CREATE TRIGGER from the abstract definition; returns the statement and a readable rendering.
 pub fn build_trigger(a: &Value) -> (Option<vibesql_ast::CreateTriggerStmt>, String) {
     use vibesql_ast::{TriggerAction, TriggerEvent, TriggerGranularity, TriggerTiming};
@@ -649,6 +765,7 @@ impl Engine {
     pub fn step(&mut self, a: &Value) -> Value {
         let kind = a["a"].as_str().unwrap_or("");
         let mut sql = render::action(a);
+        let mut arith_obs: Option<Value> = None;
         let o = match kind {
             "reset" => {
                 self.reset();
@@ -696,6 +813,43 @@ impl Engine {
                 let r = a["r"].as_str().unwrap_or("");
                 self.db.set_role(if r.is_empty() { None } else { Some(r.to_string()) });
                 Outcome::ok(0)
+            }
+            "arith" => {
+                let (stmts, q) = arith_sql(a);
+                sql = q.clone();
+                let mut res: Option<Outcome> = None;
+                for st in &stmts {
+                    let o = exec_sql(&mut self.db, st);
+                    if o.out != "ok" {
+                        res = Some(o);
+                        break;
+                    }
+                }
+                let o = res.unwrap_or_else(|| exec_sql(&mut self.db, &q));
+                // clean up the scratch tables of the "column" context
+                let _ = exec_sql(&mut self.db, "DROP TABLE NB");
+                arith_obs = Some(arith_observation(&o));
+                o
+            }
+            "parse" | "nest" => {
+                sql = if kind == "parse" {
+                    a["toks"].as_array().map(|t| t.iter().filter_map(|x| x.as_str()).collect::<Vec<_>>().join(" ")).unwrap_or_default()
+                } else {
+                    nest_sql(a["shape"].as_str().unwrap_or(""), a["n"].as_u64().unwrap_or(1) as usize)
+                };
+                let text = sql.clone();
+                if sql.len() > 300 {
+                    sql = format!("{} ... ({} bytes)", &text.chars().take(120).collect::<String>(), text.len());
+                }
+                match catch_unwind(AssertUnwindSafe(|| vibesql_parser::Parser::parse_sql(&text).map(|_| ()))) {
+                    Ok(Ok(())) => Outcome::ok(0),
+                    Ok(Err(e)) => Outcome { out: "parse", cnt: 0, rows: None, msg: format!("{}", e) },
+                    Err(_) => Outcome { out: "panic", cnt: 0, rows: None, msg: "panic in parser".into() },
+                }
+            }
+            "sane" => {
+                sql = "SELECT 1".to_string();
+                exec_sql(&mut self.db, &sql)
             }
             "cq" => {
                 let (o, hit) = self.cached_query(&sql);
@@ -800,6 +954,9 @@ impl Engine {
         let mut ev = json!({"a": a, "sql": sql, "out": o.out, "cnt": o.cnt, "rows": rows, "msg": msg, "st": st, "cfg": self.cfg.name});
         for (k, v) in extra {
             ev[k] = v;
+        }
+        if let Some(o) = arith_obs {
+            ev["o"] = o;
         }
         ev
     }
